@@ -74,7 +74,7 @@ def establish(sim, hub, rng, src):
 
 
 def responder_case(ck, rng, thr, e, h, variant, i, own=0):
-    sim, hub, (p1, p2) = S.make_star(ck.seed * 23 + i, peers=2)
+    sim, hub, (p1, p2, p3) = S.make_star(ck.seed * 23 + i, peers=3)
     hub.ctl.cookie_threshold = thr
     sim.case = {'family': 'responder', 'threshold': thr, 'established': e, 'half_open': h, 'variant': variant, 'own_ike_sas_before': own}
     # a long-lived daemon is initiator as well as responder: `own` IKE_SAs of its own were opened (and all but the last closed again) before the flood
@@ -89,6 +89,19 @@ def responder_case(ck, rng, thr, e, h, variant, i, own=0):
             mine[0].rekey_ike_sa_at = sim.clock.t - 1
             hub.step('tick')
             sim.drain()
+    # ... and every fourth case it is, at this very moment, in the middle of a handshake of its OWN towards the other peer (IKE_SA_INIT answered, its IKE_AUTH
+    # request in flight): an IKE_SA that is not established yet, whoever started it
+    if (i // 5) % 4 == 1:
+        for conn_ in (1, 2):                    # towards P2 and towards P3: two IKE_SAs of its own that are not established yet
+            sim.acquire(hub, conn_, dport=7400 + conn_)
+            if sim.net:
+                sim.deliver(0)                  # the peer answers IKE_SA_INIT
+            if sim.net:
+                sim.deliver(0)                  # the hub sends IKE_AUTH ...
+            sim.net.clear()                     # ... which stays unanswered
+        if sum(1 for x in hub.ctl.ike_sas if x.state.name == 'AUTH_REQ_SENT') == 2:
+            ck.count('responder.cases_with_an_own_handshake_in_progress')
+            sim.case['own_handshake_in_progress'] = True
     for _ in range(e):
         if not establish(sim, hub, rng, P1A):
             ck.count('setup.establish_failed')
@@ -399,6 +412,7 @@ def run(ck):
 
 def verdict(ck):
     c = ck.counters
+    ck.floor('responder cases in which the daemon has a handshake of its own in progress', c['responder.cases_with_an_own_handshake_in_progress'], 80)
     ck.floor('responder cases whose half-open IKE_SAs are copies of few requests', c['responder.filled_by_copies_of_few_requests'], 60)
     ck.floor('requests that had to be refused with a cookie', c['responder.must_demand'], 150)
     ck.floor('valid cookies accepted under load', c['responder.valid_cookie_accepted'], 15)
